@@ -408,7 +408,10 @@ impl ToZinc for Column {
     fn to_zinc<W: std::io::Write>(&self, writer: &mut W) -> Result<()> {
         write_str(writer, &self.name)?;
         if let Some(meta) = &self.meta {
-            write_dict_tags(writer, meta, b" ")?;
+            if !meta.is_empty() {
+                writer.write_all(b" ")?;
+                write_dict_tags(writer, meta, b" ")?;
+            }
         }
         Ok(())
     }
